@@ -2,7 +2,8 @@
     (model of index/eval.go, matchtree.go, indexdata.go, matchiter.go, hititer.go at /repo HEAD incl. the word fast-path
     fix commits 260937d d7a2c44 cae2348). *)
 From ZV Require Import Lib.Base Model.SearchCore Model.SearchCoreIters Proofs.SearchCoreIters Proofs.SearchCoreText Proofs.SearchCoreTree Proofs.SearchCoreLoop
-  Proofs.SearchCoreSelect Proofs.SearchCoreBuild Proofs.SearchCoreSimp Proofs.SearchCoreWord Proofs.SearchCoreTop Proofs.SearchCoreRf Proofs.SearchCoreDistill Proofs.SearchCoreEngine.
+  Proofs.SearchCoreSelect Proofs.SearchCoreBuild Proofs.SearchCoreSimp Proofs.SearchCoreWord Proofs.SearchCoreTop Proofs.SearchCoreSym Proofs.SearchCoreRf Proofs.SearchCoreDistill Proofs.SearchCoreEngine Proofs.SearchCoreRegexTie.
+From ZV Require Model.Regex.
 From Coq Require Import ZifyBool ZifyN.
 
 (** 1. Verified trigram candidates are exactly the occurrences: for every list of texts, every pattern of >= 3 runes,
@@ -85,7 +86,11 @@ Print Assumptions C01_word_fastpath_exact.
     the form of the decidable obligation [re_okb] (engine matches => distilled literal tree holds; equivalence where
     the distillation claims it; engine verdict on \bLIT\b = reference word semantics), which the correspondence run
     evaluates on every generated case.  For queries without regexp atoms the obligation is [true] by computation.
-    Symbol queries are not modelled.  Hypotheses: [agree] (case folding vs lower-casing, cf. C08) and that a
+    Symbol queries (Symbol{Substring}, Symbol{Regexp}; reference semantics: the expression matches the TEXT OF ONE
+    SYMBOL SECTION) are covered: for them [re_okb] contains that the sections of every document are sorted,
+    non-overlapping and inside the content (what ShardBuilder.Add enforces), that a section match of the engine implies
+    the distilled tree (borrowed as docIterator), and - where a symbol regexp distills to one exact literal - that the
+    engine agrees with literal containment on every section text.  Hypotheses: [agree] (case folding vs lower-casing, cf. C08) and that a
     frequency of 0 is only reported for trigrams without postings. *)
 Theorem C01_search_exact_partial :
   forall (re_match : N -> list N -> bool) (tolower : N -> N) (orbit : N -> list N) (c : corpus)
@@ -99,14 +104,16 @@ Print Assumptions C01_search_exact_partial.
 
 (** 9. FULL for the regexp-free fragment: for every corpus and every query built from substrings (content / file name,
     case-sensitive or not), and / or / not, constants, branch, repository (table, set, ids, rawconfig, branches-repos),
-    language, file-name-set, type and boost nodes, Search without limits returns exactly the live documents on which
-    the query is true, in document order -- no obligation on any external component besides the two table hypotheses. *)
+    language, file-name-set, type and boost nodes AND Symbol{Substring} atoms, Search without limits returns exactly
+    the live documents on which the query is true, in document order -- no obligation on any external component besides
+    the two table hypotheses; [secs_wf]: the symbol sections of every document are sorted, non-overlapping and inside
+    the content (enforced by ShardBuilder.Add; vacuous for corpora without symbols). *)
 Theorem C01_search_exact_regexp_free :
   forall (re_match : N -> list N -> bool) (tolower : N -> N) (orbit : N -> list N) (c : corpus)
          (freq : bool -> bool -> tri -> N) (q : Q),
   agree tolower orbit ->
   (forall fn cs g, freq fn cs g = 0%N -> post orbit (ix_tris c fn) cs g = []) ->
-  rfree q = true ->
+  secs_wf c -> rfree q = true ->
   search re_match tolower orbit c freq q = spec_search re_match tolower c q.
 Proof. intros. apply search_exact_rfree; assumption. Qed.
 Print Assumptions C01_search_exact_regexp_free.
@@ -145,17 +152,67 @@ Print Assumptions C01_distill_equal.
     kinds, if the external regexp engine is sound w.r.t. [rm] on every regexp atom and complete on the atoms that use
     only exactly-modelled operators ([engine_ok]), Search without limits returns exactly the live documents on which
     the query evaluates to true.  Still _partial: the engine itself is not modelled, [rm] over-approximates the
-    operators it does not define, symbol queries are absent. *)
+    operators it does not define; for symbol atoms [engine_ok] is the per-section clause of [re_ok] (well-formed
+    sections; engine = literal containment on section texts where the distillation is one exact literal), not derived
+    from [rm]. *)
 Theorem C01_search_exact_engine_partial :
   forall (re_match : N -> list N -> bool) (tolower : N -> N) (orbit : N -> list N) (c : corpus)
          (freq : bool -> bool -> tri -> N) (q : Q),
   agree tolower orbit ->
   (forall fn cs g, freq fn cs g = 0%N -> post orbit (ix_tris c fn) cs g = []) ->
   (forall x, tolower x = tolower 10%N -> x = 10%N) ->
-  engine_ok re_match tolower c (expand (simp c q)) ->
+  engine_ok re_match tolower orbit c freq (expand (simp c q)) ->
   search re_match tolower orbit c freq q = spec_search re_match tolower c q.
 Proof. exact search_exact_engine. Qed.
 Print Assumptions C01_search_exact_engine_partial.
+
+(** 12a. ONE regexp semantics.  On the fragment of regexp/syntax that [rx] represents exactly ([no_other]) the semantics
+    [rm] of theorems 10-12 IS the semantics of Model/Regex.v (the regexp layer of C27/C28/C08: declarative [m], equal to
+    the executable [ends] by C27_ends_exact) of the embedded regexp [emb cs r] (a literal folds case when it carries
+    FoldCase or the query is case-insensitive), provided "equal after unicode.ToLower" and "equal or in the SimpleFold
+    orbit" agree on (literal runes) x (text runes) and the text has no rune above U+10FFFF. *)
+Theorem C01_rm_is_regex_semantics :
+  forall (tolower : N -> N) (orbit2 : N -> list N) (cs : bool) (t : list N) (A : N -> Prop),
+  (forall a b, A a -> In b t -> N.eqb (tolower a) (tolower b) = Regex.fold_eq orbit2 true a b) ->
+  (forall b, In b t -> (b <= Regex.max_rune)%N) ->
+  forall r, no_other r = true -> Forall A (lit_runes r) ->
+  forall i j, rm tolower cs t r i j <-> (Regex.m orbit2 (emb cs r) t i j /\ i <= length t).
+Proof. exact rm_iff_m. Qed.
+Print Assumptions C01_rm_is_regex_semantics.
+
+(** ... hence the TOP LEVEL with the engine assumption phrased against the executable semantics of Model/Regex.v
+    ([engine_is_ends]: every regexp atom lies in the exact fragment and the engine's verdict on every name/content is
+    "[Regex.ends (emb cs r)] is non-empty from some start position").  _partial: the engine itself is not modelled;
+    regexps using operators outside the fragment (classes, ., ?, *, anchors) are only covered by theorem 12 (sound
+    over-approximation [rm]); symbol atoms as in theorem 12. *)
+Theorem C01_search_exact_regex_semantics_partial :
+  forall (re_match : N -> list N -> bool) (tolower : N -> N) (orbit orbit2 : N -> list N) (c : corpus)
+         (freq : bool -> bool -> tri -> N),
+  (forall fn k b, In b (text_of c fn k) -> (b <= Regex.max_rune)%N) ->
+  forall q : Q,
+  agree tolower orbit ->
+  (forall fn cs g, freq fn cs g = 0%N -> post orbit (ix_tris c fn) cs g = []) ->
+  (forall x, tolower x = tolower 10%N -> x = 10%N) ->
+  engine_is_ends re_match tolower orbit orbit2 c freq (expand (simp c q)) ->
+  search re_match tolower orbit c freq q = spec_search re_match tolower c q.
+Proof. exact search_exact_regex_semantics. Qed.
+Print Assumptions C01_search_exact_regex_semantics_partial.
+
+(** 12b. Symbol queries, the mechanism of symbolSubstrMatchTree.prepare: the two-pointer walk over the sorted sections
+    and the ascending candidate offsets keeps exactly the candidates that start and end inside one section ... *)
+Theorem C01_symbol_walk_is_filter : forall (n len : nat) (secs : list (nat * nat)) (cur : list nat),
+  1 <= n -> secs_ok len secs -> inc cur ->
+  sym_trim n secs cur = filter (in_secs n secs) cur.
+Proof. exact sym_trim_filter. Qed.
+Print Assumptions C01_symbol_walk_is_filter.
+
+(** ... so that (candidates = occurrences, theorem 1) the node holds iff the pattern occurs in the text of one section *)
+Theorem C01_symbol_substr_exact : forall (tolower : N -> N) (cs : bool) (p t : list N) (secs : list (nat * nat)),
+  1 <= length p -> secs_ok (length t) secs ->
+  match sym_trim (length p) secs (occ_offsets tolower cs p t) with [] => false | _ => true end =
+  existsb (fun sec => contains tolower cs p (slice t sec)) secs.
+Proof. exact sym_trim_spec. Qed.
+Print Assumptions C01_symbol_substr_exact.
 
 (** 13. The operational distanceHitIterator (findNext / first / next over two sorted posting lists, any skip sequence)
     denotes the filtered list dist_hits used by the model, and the consuming loop of ngramDocIterator.candidates takes
@@ -278,7 +335,7 @@ Qed.
 
 Definition ex_repo (nm : list N) (tomb : bool) : repo :=
   {| r_name := nm; r_id := 7; r_tomb := tomb; r_ftombs := [[120; 46; 103; 111]]%N; r_branches := [[109]]%N; r_rawmask := 0 |}.
-Definition ex_doc (nm ct : list N) (rp : nat) : doc := {| d_name := nm; d_content := ct; d_mask := 1; d_repo := rp; d_lang := 0 |}.
+Definition ex_doc (nm ct : list N) (rp : nat) : doc := {| d_name := nm; d_content := ct; d_mask := 1; d_repo := rp; d_lang := 0; d_secs := [(1, Nat.min 5 (length ct))] |}.
 (** docs: "a.go":"xabcabx"  "b.go":"ABCA" (repo 0);  "c.go":"abca" (tombstoned repo 1);  "x.go":"abca" (file tombstone); "d":"ab" *)
 Definition ex_corpus : corpus :=
   {| c_repos := [ex_repo [114]%N false; ex_repo [115]%N true];
@@ -296,6 +353,19 @@ Example ex_rfree : rfree ex_query = true. Proof. reflexivity. Qed.
 Example ex_search : search ex_re alower aorbit ex_corpus (count_freq aorbit ex_corpus) ex_query = [0; 1; 4].
 Proof. vm_compute. reflexivity. Qed.
 Example ex_spec : spec_search ex_re alower ex_corpus ex_query = [0; 1; 4].
+Proof. vm_compute. reflexivity. Qed.
+(** symbol queries on the same corpus (every document has one section, runes 1..min(5, length) of the content): sym:"abca"
+    (case-insensitive) selects a.go ("xabcabx": section text "abca") only - in b.go "ABCA" starts at 0, outside the section;
+    sym:"bca" case-sensitive and not sym:"cab" *)
+Definition ex_symq : Q := QOr [QSymSubstr [97; 98; 99; 97]%N false; QAnd [QSymSubstr [98; 99; 97]%N true; QNot (QSymSubstr [99; 97; 98]%N true)]].
+Example ex_sym_wf : secs_wf ex_corpus.
+Proof. intros k Hk. unfold ndocs in Hk. simpl in Hk. do 5 (destruct k as [|k]; [vm_compute; reflexivity|]). lia. Qed.
+Example ex_sym_rfree : rfree ex_symq = true. Proof. reflexivity. Qed.
+Example ex_sym_search : search ex_re alower aorbit ex_corpus (count_freq aorbit ex_corpus) ex_symq = [0]
+  /\ spec_search ex_re alower ex_corpus ex_symq = [0]
+  /\ spec_search ex_re alower ex_corpus (QSymSubstr [66; 67; 65]%N true) = [1].
+Proof. vm_compute. auto. Qed.
+Example ex_sym_walk : sym_trim 2 [(0, 3); (3, 4); (6, 9)] [0; 1; 2; 3; 5; 6; 7; 8] = [0; 1; 6; 7].
 Proof. vm_compute. reflexivity. Qed.
 (** candidates: pattern "abca" (trigrams abc@0, bca@1) in texts ["xabcabx"; "abca"; "ab"], document 0 *)
 Definition ex_ts : list (list N) := [[120; 97; 98; 99; 97; 98; 120]; [97; 98; 99; 97]; [97; 98]]%N.
@@ -319,6 +389,23 @@ Proof.
   - eapply rmc_cons with (m := 8).
     + apply rm_star; [lia | simpl; lia|]. intros p H1 H2. assert (p = 7) by lia. subst. discriminate.
     + eapply rmc_cons; [apply (rm_lit alower true _ [98; 97; 114]%N false 8); [reflexivity | simpl; lia]|]. apply rmc_nil. simpl. lia.
+Qed.
+(** the same regexp in the executable semantics of Model/Regex.v (ASCII instance of its orbit parameter): matches from
+    offset 1, nowhere in "xfoo_baz"; the bridging hypothesis holds for the ASCII instance on all runes *)
+Definition aorbit2 (x : N) : list N :=
+  if ((65 <=? x) && (x <=? 90))%N then [(x + 32)%N] else if ((97 <=? x) && (x <=? 122))%N then [(x - 32)%N] else [].
+Definition ex_rx : rx := RConcat [RPlus (RCapture (RLit [102; 111; 111]%N false)); RStarAnyNotNL; RLit [98; 97; 114]%N false].
+Example ex_ends : Regex.ends aorbit2 (emb true ex_rx) [120; 102; 111; 111; 102; 111; 111; 95; 98; 97; 114]%N 1 = [11]
+  /\ matches_somewhere aorbit2 true ex_rx [120; 102; 111; 111; 102; 111; 111; 95; 98; 97; 114]%N = true
+  /\ matches_somewhere aorbit2 true ex_rx [120; 102; 111; 111; 95; 98; 97; 122]%N = false
+  /\ matches_somewhere aorbit2 false ex_rx [120; 70; 79; 111; 95; 66; 97; 114]%N = true
+  /\ no_other ex_rx = true.
+Proof. vm_compute. auto 10. Qed.
+Example ex_bridge : forall a b, N.eqb (alower a) (alower b) = Regex.fold_eq aorbit2 true a b.
+Proof.
+  intros a b. unfold alower, Regex.fold_eq, aorbit2. simpl.
+  destruct ((65 <=? a) && (a <=? 90))%N eqn:E1; destruct ((65 <=? b) && (b <=? 90))%N eqn:E2;
+    destruct ((97 <=? a) && (a <=? 122))%N eqn:E3; simpl; lia.
 Qed.
 Example alower_nl : forall x, alower x = alower 10%N -> x = 10%N.
 Proof. intros x H. unfold alower in H. destruct ((65 <=? x) && (x <=? 90))%N eqn:E; simpl in H; lia. Qed.
